@@ -2,6 +2,7 @@ import Oracle.J
 import Eru.Cluster2.Spec
 import Eru.Cluster2.Lambda
 import Eru.Cluster2.NodeDown
+import Eru.Cluster2.Interleave
 /- Oracle for the cluster2 group (C14, C30, C28, C22 and the cluster-level stream of C13): runs
    the model on the case, compares with the implementation's snapshots and evaluates the
    specification predicates on the implementation's output. Not part of any model or proof. -/
@@ -259,5 +260,122 @@ def handle (j : Json) : Json :=
   verdict id agree (Json.mkObj (modelSt.map fun p => (p.1, Json.str p.2))) viol cls (ob.isEmpty || nlapse == 0 && !lapseBefore && ob.isEmpty)
 
 end NDO
+
+/-! ### C22 -/
+namespace RIO
+open Eru.Cluster2.RI
+
+def rstOfJson (j : Json) : RState :=
+  { pods := strs (jget j "pods"),
+    nodes := (jarr (jget j "nodes")).map fun x => match jarr x with
+      | [a, b] => (jstr a, jstr b)
+      | _ => ("", ""),
+    res := strs (jget j "res"),
+    wls := (jarr (jget j "wls")).map fun x => (jnat (jget x "w"), jstr (jget x "n")) }
+
+def canon (s : RState) : Json :=
+  Json.mkObj [("pods", jstrs (sortStr s.pods)),
+    ("nodes", jstrs (sortStr (s.nodes.map fun x => x.1 ++ "@" ++ x.2))),
+    ("res", jstrs (sortStr s.res)),
+    ("wls", jstrs (sortStr (s.wls.map fun x => s!"{x.1}@{x.2}")))]
+
+def opOfJson (j : Json) : Op :=
+  match jstr (jget j "op") with
+  | "addPod" => .addPod (jstr (jget j "pod"))
+  | "removePod" => .removePod (jstr (jget j "pod"))
+  | "addNode" => .addNode (jstr (jget j "n")) (jstr (jget j "pod"))
+  | "removeNode" => .removeNode (jstr (jget j "n"))
+  | "create" => .create (jnat (jget j "w")) (jstr (jget j "n"))
+  | _ => .remove (jnat (jget j "w"))
+
+def pcOfInt : Int → Option PC
+  | 0 => some .p0 | 1 => some .p1 | 2 => some .p2 | 3 => some .p3 | 4 => some .p4 | 5 => some .p5
+  | 8 => some .p8 | 9 => some .p9 | _ => none
+
+/-- run thread `i` until it is finished or blocked (at most `fuel` steps) -/
+def runTo (fuel : Nat) (y : Sys) (i : Nat) : Sys :=
+  match fuel with
+  | 0 => y
+  | f + 1 =>
+    match y.ts[i]? with
+    | none => y
+    | some t => if t.done then y else
+      match step y.s t with
+      | none => y
+      | some _ => runTo f (sysStep y i) i
+
+/-- run thread 0 until it has made `k` labelled calls and its next call is labelled; returns the labels made -/
+def runToPark (fuel : Nat) (y : Sys) (k : Nat) (acc : List String) : Sys × List String :=
+  match fuel with
+  | 0 => (y, acc)
+  | f + 1 =>
+    match y.ts[0]? with
+    | none => (y, acc)
+    | some t => if t.done then (y, acc) else
+      let l := label t
+      if l != "" && acc.length == k then (y, acc)
+      else match step y.s t with
+        | none => (y, acc)
+        | some _ => runToPark f (sysStep y 0) k (if l != "" then acc ++ [l] else acc)
+
+/-- all quiescent (or deadlocked) states reachable by letting the threads race -/
+def outcomes : Nat → Sys → List Sys
+  | 0, y => [y]
+  | f + 1, y =>
+    let en := (List.range y.ts.length).filter fun i =>
+      match y.ts[i]? with
+      | some t => !t.done && (step y.s t).isSome
+      | none => false
+    if en.isEmpty then [y] else en.flatMap fun i => outcomes f (sysStep y i)
+
+def opName : Op → String
+  | .addPod _ => "addPod" | .removePod _ => "removePod" | .addNode _ _ => "addNode"
+  | .removeNode _ => "removeNode" | .create _ _ => "create" | .remove _ => "remove"
+
+def handle (j : Json) : Json :=
+  let id := jget j "id"
+  let kind := jstr (jget j "kind")
+  let pre := rstOfJson (jget j "pre")
+  let impl := rstOfJson (jget j "impl")
+  let a := opOfJson (jget j "a")
+  let fault := pcOfInt (jint (jget j "fault_pc"))
+  let listOk := jbool (jget j "list_ok")
+  if kind == "fault" then
+    let y := runTo 40 ⟨pre, [{ op := a, fault := fault }]⟩ 0
+    let okA := (y.ts.map (·.ok)).getD 0 false
+    let agree := (canon y.s).compress == (canon impl).compress && okA == jbool (jget j "ok_a") && quiescent y
+    let pat := if opName a == "removeNode" && fault == some .p4 then "removenode-plugin-fault:" else ""
+    let viol := (refViolations impl).map (fun v => "C22:" ++ pat ++ v) ++
+      (if listOk then [] else ["C22:" ++ pat ++ "list-workloads-fails"])
+    verdict id agree (Json.mkObj [("state", canon y.s), ("ok_a", okA)]) viol
+      (s!"fault:{opName a}@{jint (jget j "fault_pc")}") false
+  else
+    let b := opOfJson (jget j "b")
+    let k := jnat (jget j "k")
+    let y0 : Sys := ⟨pre, [{ op := a }, { op := b }]⟩
+    let (y1, labs) := runToPark 40 y0 k []
+    -- B to completion (or until it blocks on a lock held by the parked A), then A, then B
+    let y2 := runTo 40 y1 1
+    let y3 := runTo 40 y2 0
+    let y4 := runTo 40 y3 1
+    let okA := (y4.ts.map (·.ok)).getD 0 false
+    let okB := (y4.ts.map (·.ok)).getD 1 false
+    let bBlocked := !((y2.ts.map Th.done).getD 1 true) && !((y1.ts.map Th.done).getD 0 true)
+    let agreeLabels := labs == strs (jget j "labels_a")
+    let same (y : Sys) : Bool := (canon y.s).compress == (canon impl).compress &&
+      (y.ts.map (·.ok)).getD 0 false == jbool (jget j "ok_a") && (y.ts.map (·.ok)).getD 1 false == jbool (jget j "ok_b") && quiescent y
+    -- B ran to completion while A was parked: one deterministic schedule. B blocked on A's lock:
+    -- A was released and both raced — the implementation must match SOME interleaving from the park.
+    let agree := agreeLabels && (if jbool (jget j "b_blocked") then (outcomes 30 y1).any same else same y4)
+    let ops := [opName a, opName b]
+    let pat := if ops.contains "addNode" && ops.contains "removePod" then "addnode-vs-removepod:"
+      else if ops.contains "create" && ops.contains "removeNode" then "create-vs-removenode:" else ""
+    let viol := (refViolations impl).map (fun v => "C22:" ++ pat ++ v) ++
+      (if listOk then [] else ["C22:" ++ pat ++ "list-workloads-fails"])
+    verdict id agree
+      (Json.mkObj [("state", canon y4.s), ("ok_a", okA), ("ok_b", okB), ("labels_a", jstrs labs), ("b_blocked", bBlocked)])
+      viol (s!"sched:{opName a}|{opName b}" ++ (if bBlocked then ":blocked" else "")) (labs.isEmpty)
+
+end RIO
 
 end Oracle.Cluster2
